@@ -423,8 +423,295 @@ def run_rc(v):
     return "%s|%s" % (str(x), ",".join(rows))
 
 
+def run_hist(spec):
+    """C12: items = root~hex,... ; decode sequentially (A,B,..,A,B,..), then step-wise interleaved; every decode
+    of the same item must give == events, == by-product objects, == objects rebuilt from the events"""
+    from tpmstream.common.object import events_to_obj
+
+    items = [x.split("~") for x in spec.split(",")]
+
+    class G:
+        def __init__(self, g):
+            self.g = g
+            self.value = None
+
+        def __iter__(self):
+            self.value = yield from self.g
+
+    def start(root, hexs):
+        t, kw = parse_root(root)
+        data = b"" if hexs == "-" else bytes.fromhex(hexs)
+        return G(Binary.marshal(tpm_type=t, buffer=data, abort_on_error=False, **kw))
+
+    def finish(evs, g, root):
+        kw = parse_root(root)[1]
+        try:
+            rebuilt = events_to_obj(evs, command_code=kw.get("command_code")) if evs else None
+        except Exception as e:  # noqa
+            rebuilt = "EXC " + type(e).__name__
+        return evs, g.value, rebuilt
+
+    runs = []
+    for rnd in range(2):
+        for root, hexs in items:
+            g = start(root, hexs)
+            try:
+                evs = [e for e in g if isinstance(e, MarshalEvent)]
+            except Exception as e:  # noqa
+                evs = ["EXC " + type(e).__name__]
+            runs.append(finish(evs, g, root))
+    n = len(items)
+    # interleaved: round robin over next()
+    gens = [start(root, hexs) for root, hexs in items]
+    its = [iter(g) for g in gens]
+    out = [[] for _ in items]
+    live = list(range(n))
+    while live:
+        for i in list(live):
+            try:
+                e = next(its[i])
+                if isinstance(e, MarshalEvent):
+                    out[i].append(e)
+            except StopIteration:
+                live.remove(i)
+            except Exception as e:  # noqa
+                out[i].append("EXC " + type(e).__name__)
+                live.remove(i)
+    for i, (root, hexs) in enumerate(items):
+        runs.append(finish(out[i], gens[i], root))
+    for i in range(n):
+        ref = runs[i]
+        for k, other in ((1, runs[n + i]), (2, runs[2 * n + i])):
+            if other[0] != ref[0]:
+                return "BAD events item=%d %s" % (i, "repeat" if k == 1 else "interleaved")
+            if other[1] != ref[1]:
+                return "BAD object item=%d %s" % (i, "repeat" if k == 1 else "interleaved")
+            if other[2] != ref[2]:
+                return "BAD rebuilt item=%d %s" % (i, "repeat" if k == 1 else "interleaved")
+    return "OK %d" % n
+
+
+def enc_of_command_events(evs):
+    """does a session of the decoded command ask for response encryption (sessionAttributes.encrypt)"""
+    for k, ev, raw in evs:
+        if k == "E" and raw.value is not ... and str(raw.path).endswith(".sessionAttributes") and ".authorizationArea[" in str(raw.path):
+            if int(raw.value) & 0x40:
+                return True
+    return False
+
+
+def run_stream9(spec):
+    """C09: parts = hex,hex,... (command, response, command, ...). The stream decode must equal the concatenation
+    of the individual decodes (Python == on events: path, type identity, value), and events_to_objs must give one
+    object per message equal to the individually built objects."""
+    from tpmstream.common.object import events_to_obj, events_to_objs
+
+    parts = [bytes.fromhex(x) for x in spec.split(",")]
+    try:
+        stream_events = list(Binary.marshal(tpm_type=CommandResponseStream, buffer=b"".join(parts), abort_on_error=True))
+    except Exception as e:  # noqa
+        return "BAD stream-raises %s" % type(e).__name__
+    indiv = []
+    objs = []
+    cc = None
+    enc = False
+    for i, p in enumerate(parts):
+        try:
+            if i % 2 == 0:
+                evs = list(Binary.marshal(tpm_type=Command, buffer=p, abort_on_error=True))
+                cc = int.from_bytes(p[6:10], "big")
+                enc = enc_of_command_events([("E", e, e) for e in evs])
+                objs.append(events_to_obj(evs))
+            else:
+                kw = {"command_code": TPM_CC(cc)}
+                if enc:
+                    kw["parameter_encryption"] = True
+                evs = list(Binary.marshal(tpm_type=Response, buffer=p, abort_on_error=True, **kw))
+                objs.append(events_to_obj(evs, command_code=TPM_CC(cc)))
+        except Exception as e:  # noqa
+            return "NA part-%d-raises-%s" % (i, type(e).__name__)
+        indiv += evs
+    if len(stream_events) != len(indiv):
+        return "BAD length stream=%d individual=%d" % (len(stream_events), len(indiv))
+    for j, (a, b) in enumerate(zip(stream_events, indiv)):
+        if a != b:
+            return "BAD event %d stream=%s individual=%s" % (j, show_event(a, 0), show_event(b, 0))
+    try:
+        sobjs = list(events_to_objs(stream_events))
+    except Exception as e:  # noqa
+        return "BAD events_to_objs-raises %s" % type(e).__name__
+    if len(sobjs) != len(parts):
+        return "BAD objects count %d for %d messages" % (len(sobjs), len(parts))
+    for j, (a, b) in enumerate(zip(sobjs, objs)):
+        if a != b:
+            return "BAD object %d" % j
+    return "OK %d" % len(parts)
+
+
+def run_objs(root, hexs):
+    """C11: decoder by-product == object rebuilt from events; both turn back into the decoded events; re-encoding
+    gives the input"""
+    from tpmstream.common.object import events_to_obj, obj_to_events
+
+    t, kw = parse_root(root)
+    data = b"" if hexs == "-" else bytes.fromhex(hexs)
+
+    class G:
+        def __init__(self, g):
+            self.g = g
+            self.value = None
+
+        def __iter__(self):
+            self.value = yield from self.g
+
+    try:
+        g = G(Binary.marshal(tpm_type=t, buffer=data, abort_on_error=True, **kw))
+        evs = list(g)
+    except (InputStreamBytesDepletedError, InputStreamSuperfluousBytesError, ConstraintViolatedError):
+        return "NA"
+    obj = g.value
+    try:
+        rebuilt = events_to_obj(evs, command_code=kw.get("command_code"))
+    except Exception as e:  # noqa
+        return "BAD events_to_obj-raises %s" % type(e).__name__
+    if hasattr(t, "_int_size"):
+        pass
+    if obj != rebuilt:
+        return "BAD by-product!=rebuilt"
+    for nm, o in (("by-product", obj), ("rebuilt", rebuilt)):
+        try:
+            back = list(obj_to_events(o))
+        except Exception as e:  # noqa
+            return "BAD obj_to_events(%s)-raises %s" % (nm, type(e).__name__)
+        if len(back) != len(evs):
+            return "BAD obj_to_events(%s) length %d != %d" % (nm, len(back), len(evs))
+        for j, (a, b) in enumerate(zip(back, evs)):
+            if a.path != b.path:
+                return "BAD obj_to_events(%s) path %d %s != %s" % (nm, j, a.path, b.path)
+            if a.type != b.type:
+                return "BAD obj_to_events(%s) type %d %s: %s != %s" % (nm, j, a.path, tname(a.type), tname(b.type))
+            if (a.value is ...) != (b.value is ...) or (a.value is not ... and (a.value != b.value or type(a.value) is not type(b.value))):
+                return "BAD obj_to_events(%s) value %d %s" % (nm, j, a.path)
+        if b"".join(Binary.unmarshal(back)) != data:
+            return "BAD reencode(%s)" % nm
+    return "OK %d" % len(evs)
+
+
+def make_pcapng(payloads, encap="ip"):
+    """a pcapng capture with one TCP packet per payload (dpkt writer)"""
+    import io
+
+    import dpkt
+
+    f = io.BytesIO()
+    w = dpkt.pcapng.Writer(f, linktype=(101 if encap == "ip" else 1))
+    for i, p in enumerate(payloads):
+        tcp = dpkt.tcp.TCP(sport=2321, dport=40000 + i % 100, data=bytes(p))
+        ip = dpkt.ip.IP(src=b"\x7f\x00\x00\x01", dst=b"\x7f\x00\x00\x01", p=dpkt.ip.IP_PROTO_TCP, data=tcp)
+        ip.len = 20 + len(bytes(tcp))
+        pkt = bytes(ip)
+        if encap != "ip":
+            pkt = bytes(dpkt.ethernet.Ethernet(dst=b"\0" * 6, src=b"\0" * 6, type=dpkt.ethernet.ETH_TYPE_IP, data=ip))
+        w.writepkt(pkt, ts=float(i))
+    return f.getvalue()
+
+
+def run_fe(kind, texthex):
+    text = b"" if (texthex == "-" or kind == "pcap") else bytes.fromhex(texthex)
+    if kind in ("hex", "swtpm"):
+        if kind == "hex":
+            from tpmstream.io.hex.marshal import parse_hex_string as parse
+        else:
+            from tpmstream.io.swtpm_log.marshal import parse_hex_string as parse
+        out = []
+        ok = "1"
+        try:
+            for b in parse(text):
+                if not isinstance(b, int) or not 0 <= b <= 255:
+                    return "NOTBYTE %r" % (b,)
+                out.append(b)
+        except ValueError:
+            ok = "0"
+        return "%s|%s" % (hx(bytes(out)), ok)
+    if kind == "auto":
+        from tpmstream.io.auto.marshal import detect_format_and_yield_buffer
+
+        try:
+            g = detect_format_and_yield_buffer(text, strict=False)
+            fmt = next(g)
+            rest = bytes(g)
+            if rest != text:
+                return "LOSTBYTES"
+            return fmt
+        except IOError:
+            return "short"
+    if kind == "pcap":
+        import io
+
+        from tpmstream.io.pcapng.marshal import bytes_from_pcap_file
+
+        payloads = [] if texthex == "-" else [bytes.fromhex(x) if x != "-" else b"" for x in texthex.split(",")]
+        res = None
+        for encap in ("ip", "eth"):
+            data = make_pcapng(payloads, encap)
+            r = hx(bytes(bytes_from_pcap_file(io.BytesIO(data))))
+            if res is None:
+                res = r
+            elif r != res:
+                return "ENCAPDIFF"
+        return res
+    return "BADREQ"
+
+
+def run_fevents(kind, abort, root, texthex):
+    """decode through a front-end; events without pull counts + outcome"""
+    from tpmstream.io.auto import Auto
+    from tpmstream.io.hex import Hex
+    from tpmstream.io.pcapng import Pcapng
+    from tpmstream.io.swtpm_log import SWTPMLog
+
+    t, kw = parse_root(root)
+    if kind == "pcap":
+        payloads = [] if texthex == "-" else [bytes.fromhex(x) if x != "-" else b"" for x in texthex.split(",")]
+        text = make_pcapng(payloads, "ip")
+        F = Pcapng
+    elif kind == "autopcap":
+        payloads = [] if texthex == "-" else [bytes.fromhex(x) if x != "-" else b"" for x in texthex.split(",")]
+        text = make_pcapng(payloads, "eth")
+        F = Auto
+    else:
+        text = b"" if texthex == "-" else bytes.fromhex(texthex)
+        F = {"hex": Hex, "swtpm": SWTPMLog, "auto": Auto, "binary": Binary}[kind]
+    out = []
+    try:
+        for ev in F.marshal(tpm_type=t, buffer=text, abort_on_error=abort, **kw):
+            out.append(show_event(ev, 0).rsplit(" ", 1)[0] if isinstance(ev, MarshalEvent) else show_event(ev, 0))
+        out.append("ACC")
+    except InputStreamBytesDepletedError as e:
+        out.append("DEP %s" % oz(e.command_code))
+    except InputStreamSuperfluousBytesError as e:
+        out.append("SUP %s %s" % (hx(e.bytes_remaining), oz(e.command_code)))
+    except ConstraintViolatedError as e:
+        out.append("RAISE %s rem=%s" % (show_err(e), hx(e.bytes_remaining)))
+    except ValueError as e:
+        out.append("VALUEERROR")
+    except Exception as e:  # noqa
+        out.append("CRASH %s" % type(e).__name__)
+    return ";".join(out)
+
+
 def handle(line):
     parts = line.split(" ")
+    if parts[0] == "fe":
+        return run_fe(parts[1], parts[2])
+    if parts[0] == "fevents":
+        return run_fevents(parts[1], parts[2] == "1", parts[3], parts[4])
+    if parts[0] == "stream9":
+        return run_stream9(parts[1])
+    if parts[0] == "objs":
+        return run_objs(parts[1], parts[2])
+    if parts[0] == "hist":
+        return run_hist(parts[1])
     if parts[0] == "rc":
         return run_rc(parts[2])
     if parts[0] == "attr":
